@@ -643,6 +643,12 @@ impl C05 {
         mon::journal(&line);
         let mut s = Session::new();
         s.drain(8);
+        // half of the time the number is already in use: a refused line must leave the old one alone
+        let old_line = if rng.coin() { Some(format!("{} PRINT 1", num)) } else { None };
+        if let Some(o) = &old_line {
+            s.enter(o);
+            s.drain(16);
+        }
         let mark = s.mark();
         s.enter(&line);
         if s.drain(16) != Stop::Stopped {
@@ -654,8 +660,20 @@ impl C05 {
         ctx.eval(&line, true);
         ctx.count("long_lines_entered");
         ctx.max("longest_line_accepted_bytes", if rejected { 0 } else { line.len() as u64 });
+        if rejected {
+            let want: Vec<String> = old_line.iter().cloned().collect();
+            if listed != want {
+                ctx.violation(
+                    "refused-line-changed-program",
+                    "list:long:refused-changed",
+                    &format!("the {}-byte line was refused, but the listing is now {:?}; before it was {:?}", line.len(), listed.iter().map(|l| &l[..l.len().min(30)]).collect::<Vec<_>>(), want),
+                    &line,
+                );
+                return;
+            }
+        }
         if line.len() > 1024 {
-            if !rejected || !listed.is_empty() {
+            if !rejected {
                 ctx.violation("over-limit-accepted", "list:long:over-limit", &format!("a line of {} bytes was accepted", line.len()), &line);
             }
             return;
